@@ -9,6 +9,10 @@ Argument *specs* are plain data:
     ['c', x, y, ...]   a channel list of specs (expanded exactly like a list)
     ['k', x]           a channel list made from ONE non-list value x (a scalar
                        or a tuple): a channel list of length one holding x
+    ['e', x, y, ...]   a channel list whose FINAL content is x, y, ... after
+                       in-place list edits (item assignment, append, extend,
+                       insert, del ...): expanded exactly like ['c', x, y, ...]
+                       - only the content at the time of the call counts
     ['o']              omitted (the callee's default fills the position)
 
 expand(args) -> tree
@@ -22,7 +26,7 @@ may itself be a list)."""
 
 
 def is_list(spec):
-    return spec[0] in ('l', 'c', 'k')
+    return spec[0] in ('l', 'c', 'k', 'e')
 
 
 def expand(args):
@@ -66,7 +70,7 @@ def atoms(spec, out=None):
     out = [] if out is None else out
     if spec[0] == 's':
         out.append(spec[1])
-    elif spec[0] in ('t', 'l', 'c', 'k'):
+    elif spec[0] in ('t', 'l', 'c', 'k', 'e'):
         for x in spec[1:]:
             atoms(x, out)
     return out
@@ -127,6 +131,8 @@ def selftest():
     assert expand([['k', ['t', s(1), s(2)]], ['l', s(3), s(4)]]) == \
         ['cl', [['call', [['t', s(1), s(2)], s(3)]],
                 ['call', [['t', s(1), s(2)], s(4)]]]]
+    # an edited channel list counts with its final content
+    assert expand([['e', s(1), s(2)], s(3)]) == expand([['c', s(1), s(2)], s(3)])
     # wrap, not fold: lengths 4 and 3
     t = expand([['l', s(0), s(1), s(2), s(3)], ['l', s(5), s(6), s(7)]])
     assert calls(t)[3] == [s(3), s(5)]
